@@ -310,11 +310,21 @@ def split_generics(header_raw):
     return gen, ty, where
 
 
+def read_template(unit):
+    with open(os.path.join(VERIF, "units", unit + ".rs.in")) as f:
+        ttext = f.read()
+    # //@include <file relative to /verif/units>  : textual inclusion (shared preludes), up to 3 levels
+    for _ in range(3):
+        ttext = re.sub(r"^[ \t]*//@include\s+(\S+)[ \t]*$",
+                       lambda m: open(os.path.join(VERIF, "units", m.group(1))).read(), ttext, flags=re.M)
+    return ttext
+
+
 def generate(unit, probe=False, repo=None):
     repo = repo or REPO
     tpath = os.path.join(VERIF, "units", unit + ".rs.in")
-    with open(tpath) as f:
-        parts, header = parse_template(f.read())
+    ttext = read_template(unit)
+    parts, header = parse_template(ttext)
     out = []
     meta = {"unit": unit, "header": header, "functions": [], "drops": [], "lost_hints": [], "probes": [],
             "uses": set(), "assumed": [], "proves": []}
